@@ -42,7 +42,7 @@ def kf(harness: str, **args) -> bool:
     expressions over the harness arguments (known_findings.json).
     """
     for e in _known():
-        if e.get('fn') == harness:
+        if harness in (e.get('fn'), f"{e.get('property')}.{e.get('fn')}"):
             if eval(e['region'], {'__builtins__': {}}, dict(args)):
                 return True
     return False
